@@ -22,6 +22,19 @@ theorem wsv_modConn_tame (s : St) (i : Nat) (f : Conn → Conn)
   · simp [(h c).1, (h c).2]
   · rfl
 
+/-- (connection id, its socket has been closed) for every connection ever created -/
+def St.skv (s : St) : List (Nat × Bool) := s.conns.map fun c => (c.id, c.sockClosed)
+
+theorem skv_modConn_tame (s : St) (i : Nat) (f : Conn → Conn)
+    (h : ∀ c, (f c).id = c.id ∧ (f c).sockClosed = c.sockClosed) : (s.modConn i f).skv = s.skv := by
+  simp only [St.skv, St.modConn, List.map_map]
+  apply List.map_congr_left
+  intro c _
+  simp only [Function.comp]
+  split
+  · simp [(h c).1, (h c).2]
+  · rfl
+
 /-- discharges the side condition of `wsv_modConn_tame` for a literal record update -/
 macro "tame" : tactic => `(tactic| (intro c; exact ⟨rfl, rfl⟩))
 
